@@ -21,7 +21,8 @@
                           `TypeInfo::convert`/`layout_of` then recurse for ever
                           (refutation, witness replayed on the real code);
                           `cycle_check_sound`: the repaired check (arguments of
-                          named types are visited) is sound.
+                          named types are visited) is sound: acceptance implies
+                          that `convert` terminates on every closed type.
    * refutation `invalid_span_old_off_boundary`: the span of an unrecognised
      multi-byte character was `start..start+1` on the unchanged tree.
 
@@ -113,5 +114,26 @@ arguments of named types) accepts `Option` + `record A { x: A? }`, and
 theorem cycle_check_old_unsound :
     Accepts .old witnessDefs [0, 1] ∧ ¬ Terminates witnessDefs (.name 1 []) :=
   old_unsound
+
+open RotoV.TypeCycle in
+/-- T4 `cycle_check_sound` on the repaired check (`visit` follows the arguments
+of named types): if `detect_type_cycles` accepts — whatever the iteration order
+of its hash map, as long as every definition is visited — then
+`TypeInfo::convert` (and with it `layout_of`, which walks the tree `convert`
+builds) terminates on every type over the defined names. -/
+theorem cycle_check_sound (defs : Defs) (order : List Nat)
+    (hcover : ∀ n, n < defs.length → n ∈ order)
+    (hacc : Accepts .fixed defs order) (ty : Ty) (hty : Ty.closedIn defs.length ty = true) :
+    Terminates defs ty :=
+  fixed_sound defs order hcover hacc ty hty
+
+open RotoV.TypeCycle in
+/-- non-vacuity: a generic, non-recursive set of definitions is accepted
+(`Option[T]`, `List`, `i32`, `record R { a: Option[List[R2]] … }`), and the
+repaired check rejects the witness of the unchanged tree. -/
+example :
+    Accepts .fixed [.fields [.var 0], .list, .opaque, .fields [.name 0 [.name 1 [.name 2 []]]]] [0, 1, 2, 3] ∧
+    ¬ Accepts .fixed witnessDefs [0, 1] :=
+  ⟨⟨20, _, rfl⟩, fixed_rejects_witness⟩
 
 end RotoV.C06
